@@ -22,7 +22,7 @@ ASSUMPTIONS = [
     'platform BOM table (utf-16, utf-32, utf-8-sig) stated in Tie/Boms.lean is checked against CPython here',
 ]
 VALUE_RE = re.compile(r'[A-Za-z0-9/._-]+')
-TEXTS = ['abc', 'line one\nline two\n', 'dos\r\nline\r\n', 'x']
+TEXTS = ['abc', '\ufeffstarts with U+FEFF\nline two', 'line one\nline two\n', 'dos\r\nline\r\n', 'x']
 
 
 def catalogue():
